@@ -771,7 +771,45 @@ Definition chk_C06w (c : chain_case) (o : op) (ok : bool) (prev cur : val) : lis
       end
   | _ => []
   end.
-Definition mon_C06w (c : chain_case) (obs : val) : list Z := (mon_C06 c obs ++ mon_steps chk_C06w c obs)%list.
+(* ... and the same bound for the Rewards QUERY (which C07 makes equal to what an immediate Claim pays): in that class no
+   answer exceeds the weight share, the weights being 0 before the user's first entry - nobody is quoted (hence paid)
+   for an epoch before his position's weight took effect. The current epoch is followed through the SetBlock operations. *)
+Fixpoint rq_codes (exact : bool) (c : chain_case) (now : Z) (ops : list cop) (steps : list val) (prev : val) : list Z :=
+  match ops, steps with
+  | COp o :: ro, st :: rs =>
+      let now' := match o with SetBlock b => seconds b | _ => now end in
+      rq_codes exact c now' ro rs (vnth 1 st)
+  | CQuery q :: ro, st :: rs =>
+      ((match q with
+        | QRewards a until =>
+            let ans := vnth 1 st in
+            match vlist ans, cursor_of c prev a with
+            | [VZ 1; VL coins], Some c0 =>
+                let ws := snap_weights prev in
+                let lps := staked_denoms prev a in
+                let dur := vgetZ (vnth 0 (vnth 0 (vnth 2 prev))) in
+                let gen := vgetZ (vnth 1 (vnth 0 (vnth 2 prev))) in
+                if negb (is_user c a) || negb (claim_class_ok ws a lps c0) || (dur <=? 0) || (now <? gen) then [] else
+                let u := match until with Some x => x | None => (now - gen) / dur end in
+                let farms := filter (fun f => existsb (String.eqb (vgetS (vnth 2 f))) lps) (snap_farms prev) in
+                if forallb (fun cn =>
+                              let d := vgetS (vnth 0 cn) in
+                              let expected := fold_left (fun acc f => if String.eqb (vgetS (vnth 0 (vnth 3 f))) d
+                                                                      then acc + farm_reward_expected ws f a c0 u else acc) farms 0 in
+                              if exact then vgetZ (vnth 1 cn) =? expected else vgetZ (vnth 1 cn) <=? expected) coins
+                then [] else [if exact then 7 else 6]
+            | _, _ => []
+            end
+        | _ => []
+        end) ++ rq_codes exact c now ro rs prev)%list
+  | _, _ => []
+  end.
+Definition mon_C06w (c : chain_case) (obs : val) : list Z :=
+  (mon_C06 c obs ++ mon_steps chk_C06w c obs ++
+   match vlist obs with
+   | _ :: s0 :: steps => nodup Z.eq_dec (rq_codes false c (seconds (g_block (cc_gen c))) (cc_ops c) steps s0)
+   | _ => []
+   end)%list.
 
 (* ---------- C02: a withdrawal pays exactly floor(reserve * burned / supply) per asset ----------
    (the exact pro-rata floor is what the repaired code pays; it is within the property's [pro-rata - 1, pro-rata] window) *)
@@ -845,3 +883,11 @@ Definition chk_C11c (c : chain_case) (o : op) (ok : bool) (prev cur : val) : lis
   | _ => []
   end.
 Definition mon_C11c (c : chain_case) (obs : val) : list Z := (mon_C11 c obs ++ mon_steps chk_C11c c obs)%list.
+
+(* C07: in that class every non-zero entry of a Rewards answer IS the weight share of its denom *)
+Definition mon_C07q (c : chain_case) (obs : val) : list Z :=
+  (mon_C07 c obs ++
+   match vlist obs with
+   | _ :: s0 :: steps => nodup Z.eq_dec (rq_codes true c (seconds (g_block (cc_gen c))) (cc_ops c) steps s0)
+   | _ => []
+   end)%list.
